@@ -211,14 +211,25 @@ func (conn *diskConn) open(extension string) error {
 	return nil
 }
 
+// close flushes all tracks and closes the file.
 // called locked
 func (conn *diskConn) close() []*diskTrack {
+	// Flush all tracks before closing any writer: flushing a track may
+	// create the file, and hence writers for all tracks.
+	for _, t := range conn.tracks {
+		t.writeBuffered(true)
+	}
+	return conn.closeFile()
+}
+
+// closeFile closes the file without flushing the tracks.
+// called locked
+func (conn *diskConn) closeFile() []*diskTrack {
 	conn.originLocal = time.Time{}
 	conn.originRemote = 0
 
 	tracks := make([]*diskTrack, 0, len(conn.tracks))
 	for _, t := range conn.tracks {
-		t.writeBuffered(true)
 		if t.writer != nil {
 			t.writer.Close()
 			t.writer = nil
